@@ -266,7 +266,7 @@ PROPS["C03"] = {
     "quick_secs": 14,
     "thorough_secs": 300,
     "min_evaluations": 50000,
-    "technique": "differential monitor: falcon-lifted IL run by the reference IL interpreter vs an independent A64 decoder/interpreter (a64ref, written from the Arm ARM pseudocode) from the same state",
+    "technique": "differential monitor: falcon-lifted IL run by the reference IL interpreter vs an independent A64 decoder/interpreter (a64ref, written from the Arm ARM pseudocode) from the same state; plus multi-instruction blocks (straight-line code + branch + trailing code lifted as one block) against instruction-by-instruction reference execution",
     "rule": "one 32-bit word per case from 18 class templates with every free field random (add/sub imm/shifted/extended, move wide, logical imm/"
             "shifted, load/store register in all addressing modes, unsigned offset, literal, pairs, ordered, LDAPUR/STLUR, b/bl, b.cond, cbz, tbz, "
             "br/blr/ret, hints) plus uniformly random words; register fields biased to 31/30 and to aliasing operands (Rd = Rm, Rd = Rn, a register moved onto itself); register values biased to pointers/small ints/corners, random NZCV; the bytes an access "
@@ -323,6 +323,8 @@ PROPS["C02"] = {
             "branch and slot, cut behind the slot, exactly the 64 bytes function lifting uses with the branch in the last or second-to-last word); the "
             "words the result covers (by its instruction addresses) are executed by mipsref one instruction at a time, stopping at the first transfer "
             "of control as the executor does, and all registers, memory and the next pc are compared; a covered branch must have its slot covered. "
+            "One case in seven is a PPC block built the same way (0-6 accepted straight-line instructions, an accepted branch, 0-2 more) against ppcref. "
+            "Block fillers are chosen incrementally so that the reference defines their outcome in the state reached so far. "
             "Non-trivial = a compared output changed; distinct = (arch, mnemonic, with-slot) and (arch, branch, block shape, covered part).",
     "level_text": "Sampled (word, state) pairs per mnemonic against independently written interpreters; unaligned accesses, UNPREDICTABLE forms, "
                   "reserved BO encodings and accesses/branches that wrap around the 32-bit address space are counted and not judged.",
